@@ -210,13 +210,15 @@ class StatSystem:
         continue
       tot, mean, std = _prefix_stats(self.cols[li], self.wfr, self.n,
                                      self.smin, self.smax)
-      want = (x.reshape(self.n, -1) - np.array([float(m) for m in mean])
-              ) / np.array(std)
-      err = np.max(np.abs(nz.reshape(self.n, -1) - want) /
-                   (1 + np.abs(want)))
-      if not err <= max(self.tol * 100, 1e-7):
-        problems.append(('normalize', 'normalize differs from (x-mean)/std by '
-                         '%.3g (leaf %r)' % (err, name)))
+      # compared after multiplying back by std: (x - mean) is what carries the
+      # information; dividing by a clipped std of 1e-6 (constant column) would
+      # only amplify round-off
+      sd = np.array(std)
+      want = x.reshape(self.n, -1) - np.array([float(m) for m in mean])
+      err = np.max(np.abs(nz.reshape(self.n, -1) * sd - want)) / self.fscale
+      if not err <= self.tol * 10:
+        problems.append(('normalize', 'normalize(x)*std differs from x-mean by '
+                         '%.3g of scale (leaf %r)' % (err, name)))
       err = np.max(np.abs(bk - x)) / self.fscale
       if not err <= self.tol * 10:
         problems.append(('roundtrip', 'denormalize(normalize(x)) differs by '
